@@ -22,8 +22,12 @@ class AnalysisError(Exception):
     """The code left the analysable fragment or a named anchor could not be resolved."""
 
 
+CURRENT = []
+
+
 class Check:
     def __init__(self, pid: str, tier: str, level: str, explanation: str, trusted_base=None):
+        CURRENT[:] = [self]
         self.pid = pid
         self.tier = tier
         self.level = level
@@ -192,11 +196,18 @@ def run_rule_module(pid, tier, fn):
         return chk.finish()
     except AnalysisError as exc:
         print(f"ANALYSIS-ERROR property={pid} {exc}")
+        if CURRENT and CURRENT[0].pid == pid and CURRENT[0].violations:
+            # violations already established before the analysis left its fragment are still reported
+            CURRENT[0].note(f"analysis stopped early: {exc}")
+            return CURRENT[0].finish()
         _broken_evidence(pid, tier, str(exc), time.time() - t0)
         return 2
     except Exception as exc:  # noqa: BLE001 - tracebacks must not look like violations
         traceback.print_exc()
         print(f"ANALYSIS-ERROR property={pid} internal: {type(exc).__name__}: {exc}")
+        if CURRENT and CURRENT[0].pid == pid and CURRENT[0].violations:
+            CURRENT[0].note(f"analysis stopped early: {type(exc).__name__}: {exc}")
+            return CURRENT[0].finish()
         _broken_evidence(pid, tier, f"{type(exc).__name__}: {exc}", time.time() - t0)
         return 2
 
